@@ -2,6 +2,7 @@ package main
 
 import (
 	"fmt"
+	"os"
 )
 
 // pProfile steers the generator of parser scripts.
@@ -608,6 +609,9 @@ func genPBig(r *rng, id string, cnt counters, emit func(line, out string)) *pExe
 // replays with `lzh replay`.
 func genPLarge(r *rng, id string, cnt counters, emit func(line, out string)) (*pExec, *dExec) {
 	kind := allKinds[r.intn(len(allKinds))]
+	if kind == "OSAP" && r.chance(65) {
+		kind = r.pickS("HP", "BHP", "DHP", "BDHP", "BUP", "GSAP") // the optimizing parser is the slow one
+	}
 	c := pcfg{kind: kind, f: map[string]int{}}
 	bs := r.pick(66000, 70000, 131080, 140000, 200000) + r.intn(100)
 	c.f["BufferSize"] = bs
@@ -625,6 +629,10 @@ func genPLarge(r *rng, id string, cnt counters, emit func(line, out string)) (*p
 		c.f["WindowSize"] = r.pick(70000, bs, 131072, bs+5, 100000)
 		c.f["ShrinkSize"] = r.pick(bs/2, bs-1, 70000, bs-40000)
 		c.f["BlockSize"] = r.pick(0, 40000, 65536, 70000)
+	}
+	if kind == "GSAP" || kind == "OSAP" {
+		// a shrink that frees only a few bytes costs a suffix sort of the whole buffer per refill
+		c.f["ShrinkSize"] = r.pick(0, 1000, bs/2, bs/3)
 	}
 	switch kind {
 	case "HP", "BHP":
@@ -651,6 +659,9 @@ func genPLarge(r *rng, id string, cnt counters, emit func(line, out string)) (*p
 	emit(hdr, fmt.Sprintf("S %s ok", id))
 	e.lines = append(e.lines, e.header(id))
 	cnt.inc("p.large." + kind)
+	if os.Getenv("LZH_TIMING") != "" {
+		fmt.Fprintln(os.Stderr, "cfg", e.header(id))
+	}
 	if st != "ok" {
 		emit("E", "E")
 		return e, nil
@@ -662,6 +673,12 @@ func genPLarge(r *rng, id string, cnt counters, emit func(line, out string)) (*p
 	var segs []string
 	newSeg := func() string {
 		n := r.pick(r.rangeIn(1, 300), r.rangeIn(1000, 9000), r.rangeIn(20000, 70000))
+		if kind == "OSAP" {
+			// the optimizing parser is slow on highly repetitive data
+			if n > 3000 {
+				return fmt.Sprintf("#%d:%d", r.intn(100000), n)
+			}
+		}
 		switch r.intn(6) {
 		case 0:
 			return fmt.Sprintf("=%d:%d", r.pick(0, 97, 255), n) // a run
@@ -673,8 +690,11 @@ func genPLarge(r *rng, id string, cnt counters, emit func(line, out string)) (*p
 	}
 	total := 0
 	limit := r.rangeIn(150000, 320000)
-	if kind == "OSAP" || kind == "GSAP" {
+	if kind == "GSAP" {
 		limit = r.rangeIn(100000, 180000) // a suffix sort per fill
+	}
+	if kind == "OSAP" {
+		limit = r.rangeIn(60000, 110000)
 	}
 	for guard := 0; guard < 400 && !e.dead && total < limit; guard++ {
 		var sp string
@@ -766,4 +786,91 @@ func pLargeParse(r *rng, e *pExec, d *dExec) {
 		return
 	}
 	d.step(fmt.Sprintf("wblk %s %s", showSeqs(blk.Sequences), hx(blk.Literals)))
+}
+
+
+// genPLargeWrap: chunking independence of Wrap at large geometry (oracle only). Two wrapped parsers
+// of the same configuration read the same stream, one from a reader that always fills the slice it
+// is given, one from a reader with large short reads (>= 32 KiB but shorter than the slice), small
+// reads and data delivered together with io.EOF; the (n, err, block) sequences must be identical.
+func genPLargeWrap(r *rng, id string, cnt counters, emit func(line, out string)) []finding {
+	kind := allKinds[r.intn(len(allKinds))]
+	if kind == "OSAP" && r.chance(65) {
+		kind = r.pickS("HP", "BHP", "DHP", "BDHP", "BUP", "GSAP") // the optimizing parser is the slow one
+	}
+	c := pcfg{kind: kind, f: map[string]int{}}
+	bs := r.pick(33000, 40000, 66000, 70000, 100000, 140000) + r.intn(100)
+	c.f["BufferSize"] = bs
+	c.f["WindowSize"] = r.pick(1000, 32768, bs/2, bs)
+	c.f["ShrinkSize"] = r.pick(0, 1000, bs/2, bs-5000) // bs-1 would refill one byte per call
+	c.f["BlockSize"] = r.pick(0, 10000, 40000, bs)
+	if kind == "GSAP" {
+		c.f["MinMatchLen"] = 3
+	}
+	if kind == "GSAP" || kind == "OSAP" {
+		c.f["ShrinkSize"] = r.pick(0, 1000, bs/2, bs/3)
+	}
+	e1, st := newPExec(c, cnt)
+	emit(fmt.Sprintf("S %s X", id), fmt.Sprintf("S %s ok", id))
+	if st != "ok" {
+		emit("E", "E")
+		return e1.finds
+	}
+	e2, _ := newPExec(c, counters{})
+	if os.Getenv("LZH_TIMING") != "" {
+		fmt.Fprintln(os.Stderr, "cfg wrap", e1.header(id))
+	}
+	e1.lines = append(e1.lines, e1.header(id))
+	e2.lines = append(e2.lines, e2.header(id))
+	n := r.rangeIn(90000, 260000)
+	if kind == "OSAP" || kind == "GSAP" {
+		n = r.rangeIn(60000, 120000)
+	}
+	pay := fmt.Sprintf("%s%d:%d", r.pickS("#", "@", "#"), r.intn(100000), n)
+	if kind == "OSAP" {
+		// the optimizing parser is slow on highly repetitive data: aperiodic payload, moderate size
+		n = r.rangeIn(40000, 80000)
+		pay = fmt.Sprintf("#%d:%d", r.intn(100000), n)
+	}
+	full := make([]resp, 6000)
+	for i := range full {
+		full[i] = resp{1 << 20, 0}
+	}
+	// one response per Read call (a response larger than the slice offered is cut, the rest of it
+	// is NOT carried over), so provide more calls than can ever be needed
+	var chunks []resp
+	for i := 0; i < 400; i++ {
+		mx := r.pick(32768, 32769, 40000, 65536, 100000, 50000, 33000, 32768, 40000)
+		if r.chance(6) {
+			mx = r.pick(7, 1, 1000)
+		}
+		chunks = append(chunks, resp{mx, 0})
+	}
+	for i := 0; i < 6000; i++ {
+		chunks = append(chunks, resp{1 << 20, 0})
+	}
+	e1.step(fmt.Sprintf("wrap %s %s", pay, showResps(full)))
+	e2.step(fmt.Sprintf("wrap %s %s", pay, showResps(chunks)))
+	fl := r.pick(0, 0, 1)
+	for g := 0; g < 3000 && !e1.dead && !e2.dead; g++ {
+		o1 := e1.step(fmt.Sprintf("wparse %d", fl))
+		o2 := e2.step(fmt.Sprintf("wparse %d", fl))
+		if o1 != o2 {
+			short := func(s string) string {
+				if len(s) > 90 {
+					return s[:90] + "…"
+				}
+				return s
+			}
+			e2.find("C08", "block sequence depends on how the reader chunks its data", "Wrap.Parse",
+				fmt.Sprintf("call=%d full=%s chunked=%s", g, short(o1), short(o2)))
+			break
+		}
+		if len(o1) >= 5 && o1[:5] == "0 eof" {
+			break
+		}
+	}
+	cnt.inc("p.large.wrap")
+	emit("E", "E")
+	return append(e1.finds, e2.finds...)
 }
